@@ -40,8 +40,8 @@ Theorem C12_resources_full_refuted_row_reset :
 Proof. exact resources_full_refuted_row_reset. Qed.
 
 (* PARTIAL: for every start state satisfying Inv (tables agree with what executes, resource
-   names per step distinct, nothing over-committed) and every history in which no step whose
-   command is executing is declared again (`quiet`): for every resource r the units held by
+   names per step distinct, nothing over-committed) and every history in which no step whose job
+   is in flight (command executing, or hash check under way) is declared again (`quiet`): for every resource r the units held by
    executing commands never exceed what was made available (undefined = 0). Covers dispatch
    (guard), completion with any outcome, hash-check verdicts, reset_for_rerun, define (new,
    full and partial recycle of non-executing steps), hold/release, mark_step_pending. *)
@@ -177,7 +177,7 @@ Example C12_example_guard :
 Proof. vm_compute. repeat split; try reflexivity. discriminate. Qed.
 
 Example C12_example_quiet : quiet sys0 (ex_hist ++ [EComplete 1 0 OSucc; EDispatch 2]).
-Proof. vm_compute. repeat split. Qed.
+Proof. vm_compute. repeat split; try discriminate. Qed.
 
 (* hold: a child declared under an open hold is refused until the release *)
 Definition ex_hold : list event :=
